@@ -1,5 +1,6 @@
 import VibeProof.Model.BTree
 import VibeProof.Lemmas.BTree
+import VibeProof.Lemmas.BTreeDelete
 /-
 C17 — the disk-backed B+ tree behaves as an ordered multimap and stays well-formed.
 
@@ -796,51 +797,282 @@ theorem C17_delete_specific_partial (d : Nat) (t : BTree) (k : Key) (rid : RowId
   obtain ⟨t', b, h1, h2, h3, _⟩ := deleteWith_partial d _ _ k (leafDeleteOne_spec k rid) t hw hn
   exact ⟨t', b, h1, h2, h3⟩
 
-/-- the full statement for deletion (with rebalancing): not yet proved in Lean; on the real code it
-    is checked on every run by the correspondence and the direct oracle (C17 harness) -/
+/-! ## delete / delete_specific in full: borrow, merge at both levels, root collapse -/
+
+/-- the recursive deletion with rebalancing: the result is well-formed except possibly for its own
+    child count (`WFw`, repaired one level up or by the root collapse), fully well-formed when the
+    upward loop has stopped (`c = false`), and denotes the multimap after the deletion -/
+theorem delAux_correct (d : Nat) (hd : 5 ≤ d) (f : List Entry → Option (List Entry))
+    (g : List Entry → List Entry) (k : Key) (sp : LeafDelSpec f g k) :
+    ∀ (h : Nat) (lo hi : Option Key) (n : Node), WF d h lo hi n → leB lo k → ltB k hi →
+    ∃ es, findLeaf h n k = .ok es ∧
+      (f es = none → delAux d f h n k = .ok .notFound ∧ g (flat h n) = flat h n) ∧
+      (∀ es', f es = some es' →
+        ∃ n' c, delAux d f h n k = .ok (.ok n' c) ∧ WFw d h lo hi n' ∧ (c = false → WF d h lo hi n') ∧
+          flat h n' = g (flat h n)) := by
+  intro h
+  induction h with
+  | zero =>
+    intro lo hi n hw h1 h2
+    cases n with
+    | internal c0 r => exact hw.elim
+    | leaf es =>
+      obtain ⟨es0, hes, hnone, hsome⟩ := delAux_noUnderflow d f g k sp 0 lo hi (.leaf es) hw h1 h2
+      refine ⟨es0, hes, hnone, ?_⟩
+      intro es' hf
+      obtain ⟨n', g1, g2, g3⟩ := hsome es' hf (Or.inl rfl)
+      exact ⟨n', _, g1, g2, fun _ => g2, g3⟩
+  | succ h ih =>
+    intro lo hi n hw h1 h2
+    cases n with
+    | leaf es => exact hw.elim
+    | internal c0 r =>
+      obtain ⟨hr1, hr2, hk⟩ := hw
+      obtain ⟨flo, hL, hF, hR, hlo, hhi⟩ := scan_spec (WF d h) k lo hi [] c0 r lo rfl hk h1 h2
+      have hlen := scan_len k c0 r
+      have hflat := flat_scan h k c0 r
+      have hA := WFLeft_flat d h lo _ flo hL
+      have hC := WFRight_flat d h hi _ hR
+      obtain ⟨es, hes, hnone, hsome⟩ := ih flo _ _ hF hlo hhi
+      have hAk : ∀ e ∈ flatLeft h (scan k [] c0 r).left, e.1 ≠ k := by
+        intro e he; have := (hA e he).1 k hlo; omega
+      have hCk : ∀ e ∈ flatRight h (scan k [] c0 r).right, e.1 ≠ k := by
+        intro e he; have := (hC e he).1 k hhi; omega
+      refine ⟨es, by simpa [findLeaf] using hes, ?_, ?_⟩
+      · intro hf
+        obtain ⟨g1, g2⟩ := hnone hf
+        refine ⟨by simp [delAux, g1], ?_⟩
+        rw [hflat, sp.parts _ _ _ hAk hCk, g2]
+      · intro es' hf
+        obtain ⟨c', chk, g1, g2, g2', g3⟩ := hsome es' hf
+        have hspec : g (flat (h + 1) (.internal c0 r)) =
+            flatLeft h (scan k [] c0 r).left ++ (flat h c' ++ flatRight h (scan k [] c0 r).right) := by
+          rw [hflat, sp.parts _ _ _ hAk hCk, g3]
+        by_cases hcond : (chk && underfull d c') = true
+        · -- the child is underfull: borrow or merge at this level
+          have hchk : chk = true := by cases chk <;> simp_all
+          have hunder : c'.size < d / 2 := by
+            have : underfull d c' = true := by cases chk <;> simp_all
+            simpa [underfull] using this
+          cases h with
+          | zero =>
+            cases c' with
+            | internal a b => exact g2.elim
+            | leaf es'' =>
+              obtain ⟨n, m, e1, w1, w2, f1⟩ := rebalanceLeaf_correct d hd lo hi flo (scan k [] c0 r).left es'' (scan k [] c0 r).right hL g2 hR
+                (by simpa [Node.size] using hunder) (by omega) (by omega)
+              refine ⟨n, m, ?_, w1, w2, ?_⟩
+              · simp only [delAux, g1, hcond, if_true, e1]
+              · rw [f1, hspec]; rfl
+          | succ h' =>
+            cases c' with
+            | leaf a => exact g2.elim
+            | internal n0 nr =>
+              obtain ⟨n, e1, w1, f1⟩ := rebalanceInternal_correct d hd h' lo hi flo (scan k [] c0 r).left n0 nr (scan k [] c0 r).right hL g2 hR
+                (by simpa [Node.size] using hunder) (by omega) (by omega)
+              refine ⟨n, true, ?_, w1, by simp, ?_⟩
+              · simp only [delAux, g1, hcond, if_true, e1]
+              · rw [f1, hspec]
+        · -- no rebalancing here: the upward loop stops
+          have hwf : WF d h flo (hiOf (scan k [] c0 r).right hi) c' := by
+            cases hc : chk with
+            | false => exact g2' hc
+            | true =>
+              have hnu : underfull d c' = false := by
+                cases hu : underfull d c' with
+                | false => rfl
+                | true => rw [hc, hu] at hcond; simp at hcond
+              have : d / 2 ≤ c'.size := by
+                simp only [underfull, decide_eq_false_iff_not, Nat.not_lt] at hnu
+                exact hnu
+              exact WFw_toWF d h _ _ c' g2 (Or.inr (by omega))
+          refine ⟨closeNode (scan k [] c0 r).left c' (scan k [] c0 r).right, false, ?_, ?_, ?_, ?_⟩
+          · have : (chk && underfull d c') = false := by
+              cases hx : (chk && underfull d c') with
+              | false => rfl
+              | true => exact absurd hx hcond
+            simp only [delAux, g1, this]
+            rfl
+          · exact closeNode_WFw d h lo hi flo _ _ _ hL hwf hR (by omega)
+          · intro _; exact closeNode_WF d h lo hi flo _ _ _ hL hwf hR (by omega) (by omega)
+          · rw [flat_closeNode, hspec]
+
+theorem deleteWith_full (d : Nat) (hd : 5 ≤ d) (f : List Entry → Option (List Entry))
+    (g : List Entry → List Entry) (k : Key) (sp : LeafDelSpec f g k) (t : BTree) (hw : t.WF d) :
+    ∃ t' b, deleteWith d f t k = .ok (t', b) ∧ t'.WF d ∧ t'.toAssoc = g t.toAssoc ∧
+      ∃ es, findLeaf t.h t.root k = .ok es ∧ b = (f es).isSome := by
+  obtain ⟨es, hes, hnone, hsome⟩ := delAux_correct d hd f g k sp t.h none none t.root hw trivial trivial
+  cases hf : f es with
+  | none =>
+    obtain ⟨g1, g2⟩ := hnone hf
+    exact ⟨t, false, by simp [deleteWith, g1], hw, g2.symm, es, hes, by simp [hf]⟩
+  | some es' =>
+    obtain ⟨n', c, g1, g2, _, g3⟩ := hsome es' hf
+    refine ⟨collapse ⟨t.h, n'⟩, true, by simp [deleteWith, g1], ?_, ?_, es, hes, by simp [hf]⟩
+    · cases hh : t.h with
+      | zero => rw [hh] at g2; exact g2
+      | succ h' =>
+        rw [hh] at g2
+        cases n' with
+        | leaf _ => exact g2.elim
+        | internal c0 r =>
+          cases r with
+          | nil => exact g2.2
+          | cons p r => exact ⟨by simp, g2.1, g2.2⟩
+    · cases hh : t.h with
+      | zero => rw [hh] at g3; simpa [collapse, BTree.toAssoc, hh] using g3
+      | succ h' =>
+        rw [hh] at g2 g3
+        cases n' with
+        | leaf _ => exact g2.elim
+        | internal c0 r =>
+          cases r with
+          | nil => simpa [collapse, BTree.toAssoc, hh, flat_internal] using g3
+          | cons p r => simpa [collapse, BTree.toAssoc, hh] using g3
+
+/-! ### the Boolean the API returns -/
+
+theorem findLeaf_sorted (d : Nat) : ∀ (h : Nat) (lo hi : Option Key) (n : Node) (k : Key) (es : List Entry),
+    WF d h lo hi n → leB lo k → ltB k hi → findLeaf h n k = .ok es →
+    es.Pairwise (fun a b => a.1 < b.1) ∧ ∀ e ∈ es, e.2 ≠ [] := by
+  intro h
+  induction h with
+  | zero =>
+    intro lo hi n k es hw h1 h2 hf
+    cases n with
+    | leaf es0 =>
+      simp [findLeaf] at hf
+      subst hf
+      exact ⟨hw.1, fun e he => (hw.2.1 e he).2.2⟩
+    | internal c0 r => exact hw.elim
+  | succ h ih =>
+    intro lo hi n k es hw h1 h2 hf
+    cases n with
+    | leaf es0 => exact hw.elim
+    | internal c0 r =>
+      obtain ⟨flo, hL, hF, hR, hlo, hhi⟩ := scan_spec (WF d h) k lo hi [] c0 r lo rfl hw.2.2 h1 h2
+      exact ih flo _ _ k es hF hlo hhi (by simpa [findLeaf] using hf)
+
+theorem leafDeleteAll_isSome (es : List Entry) (k : Key) (hs : es.Pairwise (fun a b => a.1 < b.1))
+    (hne : ∀ e ∈ es, e.2 ≠ []) : (leafDeleteAll es k).isSome = (amLookup es k != []) := by
+  induction es with
+  | nil => rfl
+  | cons a es ih =>
+    obtain ⟨k', rs⟩ := a
+    rw [List.pairwise_cons] at hs
+    simp only [leafDeleteAll, amLookup]
+    by_cases h1 : k' < k
+    · have h2 : ¬ k' = k := by omega
+      simp only [h1, h2, if_true, if_false, Option.isSome_map]
+      exact ih hs.2 (fun e he => hne e (by simp [he]))
+    · by_cases h2 : k' = k
+      · have := hne (k', rs) (by simp)
+        simp [h1, h2, this]
+      · simp only [h1, h2, if_false]
+        have : amLookup es k = [] := by
+          apply amLookup_nil_of
+          intro e he
+          have := hs.1 e he
+          simp at this
+          omega
+        simp [this]
+
+theorem leafDeleteOne_isSome (es : List Entry) (k : Key) (rid : RowId)
+    (hs : es.Pairwise (fun a b => a.1 < b.1)) :
+    (leafDeleteOne es k rid).isSome = (amLookup es k).contains rid := by
+  induction es with
+  | nil => rfl
+  | cons a es ih =>
+    obtain ⟨k', rs⟩ := a
+    rw [List.pairwise_cons] at hs
+    simp only [leafDeleteOne, amLookup]
+    by_cases h1 : k' < k
+    · have h2 : ¬ k' = k := by omega
+      simp only [h1, h2, if_true, if_false, Option.isSome_map]
+      exact ih hs.2
+    · by_cases h2 : k' = k
+      · by_cases h3 : rid ∈ rs
+        · simp [h1, h2, h3]
+        · simp [h1, h2, h3]
+      · simp only [h1, h2, if_false]
+        have : amLookup es k = [] := by
+          apply amLookup_nil_of
+          intro e he
+          have := hs.1 e he
+          simp at this
+          omega
+        simp [this]
+
+theorem amLookup_leaf_eq (d : Nat) (t : BTree) (k : Key) (hw : t.WF d) (es : List Entry)
+    (hes : findLeaf t.h t.root k = .ok es) : amLookup es k = amLookup t.toAssoc k := by
+  obtain ⟨es', h1, h2⟩ := findLeaf_correct d t.h none none t.root k hw trivial trivial
+  rw [hes] at h1
+  cases h1
+  show amLookup es k = amLookup (flat t.h t.root) k
+  rw [← h2, leafSearch_eq es k (findLeaf_sorted d t.h none none t.root k es hw trivial trivial hes).1]
+
+/-- the full statement for `delete` -/
 def C17_delete_full : Prop :=
   ∀ (d : Nat), 5 ≤ d → ∀ (t : BTree) (k : Key), t.WF d →
     ∃ t' b, BTree.delete d t k = .ok (t', b) ∧ t'.WF d ∧ t'.toAssoc = amErase t.toAssoc k ∧
       b = (amLookup t.toAssoc k != [])
 
+/-- the full statement for `delete_specific` -/
 def C17_delete_specific_full : Prop :=
   ∀ (d : Nat), 5 ≤ d → ∀ (t : BTree) (k : Key) (rid : RowId), t.WF d →
     ∃ t' b, BTree.deleteSpecific d t k rid = .ok (t', b) ∧ t'.WF d ∧
       t'.toAssoc = amEraseOne t.toAssoc k rid ∧ b = (amLookup t.toAssoc k).contains rid
 
+/-- **delete (all row ids of a key) refines the ordered multimap and keeps the tree well-formed**,
+    with every rebalancing path: borrow from the left / right sibling, merge, the same one level up
+    for as many levels as the upward loop walks, and the collapse of the root.  The returned flag
+    says whether the key was present. -/
+theorem C17_delete : C17_delete_full := by
+  intro d hd t k hw
+  obtain ⟨t', b, h1, h2, h3, es, hes, hb⟩ := deleteWith_full d hd _ _ k (leafDeleteAll_spec k) t hw
+  refine ⟨t', b, h1, h2, h3, ?_⟩
+  obtain ⟨s1, s2⟩ := findLeaf_sorted d t.h none none t.root k es hw trivial trivial hes
+  rw [hb, leafDeleteAll_isSome es k s1 s2, amLookup_leaf_eq d t k hw es hes]
+
+/-- **delete_specific refines the ordered multimap and keeps the tree well-formed** (same paths) -/
+theorem C17_delete_specific : C17_delete_specific_full := by
+  intro d hd t k rid hw
+  obtain ⟨t', b, h1, h2, h3, es, hes, hb⟩ := deleteWith_full d hd _ _ k (leafDeleteOne_spec k rid) t hw
+  refine ⟨t', b, h1, h2, h3, ?_⟩
+  obtain ⟨s1, _⟩ := findLeaf_sorted d t.h none none t.root k es hw trivial trivial hes
+  rw [hb, leafDeleteOne_isSome es k rid s1, amLookup_leaf_eq d t k hw es hes]
+
 /-! ## operation sequences -/
 
-def isDelete : Op → Bool
-  | .delete _ => true
-  | .deleteSpecific _ _ => true
-  | _ => false
-
-theorem step_refines (d : Nat) (hd : 5 ≤ d) (t : BTree) (op : Op) (hw : t.WF d) (hop : isDelete op = false) :
+theorem step_refines (d : Nat) (hd : 5 ≤ d) (t : BTree) (op : Op) (hw : t.WF d) :
     ∃ t' a, step d t op = .ok (t', a) ∧ specStep t.toAssoc op = (t'.toAssoc, a) ∧ t'.WF d := by
   cases op with
   | insert k r =>
     obtain ⟨t', h1, h2, h3⟩ := C17_insert d hd t k r hw
     exact ⟨t', .unit, by simp [step, h1, Except.map], by simp [specStep, h3], h2⟩
-  | delete k => simp [isDelete] at hop
-  | deleteSpecific k r => simp [isDelete] at hop
+  | delete k =>
+    obtain ⟨t', b, h1, h2, h3, h4⟩ := C17_delete d hd t k hw
+    exact ⟨t', .bool b, by simp [step, h1, Except.map], by simp [specStep, h3, h4], h2⟩
+  | deleteSpecific k r =>
+    obtain ⟨t', b, h1, h2, h3, h4⟩ := C17_delete_specific d hd t k r hw
+    exact ⟨t', .bool b, by simp [step, h1, Except.map], by simp [specStep, h3, h4], h2⟩
   | lookup k => exact ⟨t, _, by simp [step, C17_lookup d t k hw, Except.map], rfl, hw⟩
   | multiLookup ks => exact ⟨t, _, by simp [step, C17_multi_lookup d t ks hw, Except.map], rfl, hw⟩
   | rangeScan s e a b => exact ⟨t, _, by simp [step, C17_range_scan d t s e a b hw, Except.map], rfl, hw⟩
 
-/-- **every answer of every sequence of inserts, lookups, multi-key lookups and range scans
-    equals the ordered multimap's, and the tree stays well-formed** (any length, any keys);
-    for sequences with deletions the same holds step by step through `C17_delete_partial` when no
-    leaf underflows, and is checked on the real code by the harness otherwise -/
+/-- **every answer of every sequence of insert, delete, delete_specific, lookup, multi-key lookup
+    and range scan equals the ordered multimap's, and the tree stays well-formed** — any length,
+    any keys, any mixture (so: through every split, borrow, merge and root collapse the sequence
+    provokes) -/
 theorem C17_run_refines (d : Nat) (hd : 5 ≤ d) : ∀ (ops : List Op) (t : BTree), t.WF d →
-    (∀ op ∈ ops, isDelete op = false) →
     ∃ t' as, run d t ops = .ok (t', as) ∧ specRun t.toAssoc ops = (t'.toAssoc, as) ∧ t'.WF d := by
   intro ops
   induction ops with
-  | nil => intro t hw _; exact ⟨t, [], rfl, rfl, hw⟩
+  | nil => intro t hw; exact ⟨t, [], rfl, rfl, hw⟩
   | cons op ops ih =>
-    intro t hw hops
-    obtain ⟨t1, a, h1, h2, h3⟩ := step_refines d hd t op hw (hops op (by simp))
-    obtain ⟨t2, as, g1, g2, g3⟩ := ih t1 h3 (fun o ho => hops o (by simp [ho]))
+    intro t hw
+    obtain ⟨t1, a, h1, h2, h3⟩ := step_refines d hd t op hw
+    obtain ⟨t2, as, g1, g2, g3⟩ := ih t1 h3
     refine ⟨t2, a :: as, ?_, ?_, g3⟩
     · simp only [run, h1, g1, bind, Except.bind, pure, Except.pure]
     · simp only [specRun, h2, g2]
@@ -866,8 +1098,8 @@ example : ∃ t, (run 5 BTree.empty sampleOps).toOption.map (·.1) = some t ∧
   refine ⟨_, rfl, ?_⟩
   decide
 
-/-- deletions with borrow, merge, internal rebalancing and root collapse evaluated on the model:
-    the answers equal the multimap's (an executable test of the part of deletion not yet proved) -/
+/-- deletions with borrow, merge, internal rebalancing and root collapse evaluated on the model
+    (an instance of `C17_run_refines`, kept as an executable test) -/
 example :
     let ops := sampleOps ++ (List.range 30).map (fun i => Op.delete ((i : Nat) : Int)) ++ [Op.rangeScan none none true true]
     (run 5 BTree.empty ops).toOption.map (fun p => (p.1.h, p.2)) =
